@@ -11,7 +11,7 @@ package main
 // per typed message, in order, with that message's raw bytes, and none for the others:
 // the writer's log grows by the concatenation of the raw bytes of the typed messages.
 //@ func writeRTCMMessages
-//@ requires[C07] ch != nil
+//@ requires ch != nil
 //@ let msgs = feed(ch)
 //@ let r0 = recvd(ch)
 //@ let c0 = gc("wrcalls", writer)
@@ -28,7 +28,7 @@ package main
 
 // Readable log: one Write per delivered message.
 //@ func writeReadableMessages
-//@ requires[C07] ch != nil
+//@ requires ch != nil
 //@ let r0 = recvd(ch)
 //@ let c0 = gc("wrcalls", writer)
 //@ modifies recv(ch), gc("wr", writer), gb("wr", writer), gc("wrcalls", writer), gb("wroff", writer)
@@ -41,7 +41,7 @@ package main
 // file) each consume their own channel; all channels are handed to the fan-out stage,
 // closed exactly once after the input is exhausted, and the writers are waited for.
 //@ func HandleMessages
-//@ requires[C07] config != nil
+//@ requires config != nil
 //@ ensures[C10,C11] closed(messageChan)
 //@ loop 1
 //@ invariant[C10,C11] forall(k, 0, len(channels), channels[k] != nil && allocated(channels[k]) && (closed(channels[k]) == (k <= rangeindex)))
